@@ -11,9 +11,13 @@
 //                     D <dim> <d0> <w0> ...    desired positions/weights handed to the solver (input)
 //                     Z <id> <x> <X> <y> <Y>   resize request (input)
 //                     S <kind> <dim>           a new state begins; dim 0/1 = only that axis moved
-//                                              since the previous state, 2 = both / unknown
+//                                              since the previous state, 2 = both / unknown;
+//                                              kind "construct" = what the TopologyConstraints constructor
+//                                              left (nothing moved, PruneDegenerate may have removed path points)
 //                     R <id> <minX> <maxX> <minY> <maxY>
 //                     P <e> (<node> <ri> <x> <y>)*      ri: TR=0 BR=1 BL=2 TL=3 CENTRE=4
+//  * prune-rule : constructed (degenerate) paths handed to the TopologyConstraints constructor, tie of
+//              PruneDegenerate / validTurn to Model/TopoPrune.lean (format: see pruneRuleCase).
 // Inputs are printed before the library is called, so that a sanitizer abort leaves them in
 // the stream.
 #include "common.h"
@@ -859,6 +863,7 @@ static void sceneCyclesCase(vh::Rng &r, bool thorough) {
 //               while N.BR is to the right of X
 //   start 0: N to the left of X   start 1: N.BR on X, path A -> M.TL -> N.BR -> B built directly
 //   start 2: N straddles X, path A -> M.TL -> N.BR -> B
+// With probability 1/2 a second edge A' -> B' passes the same point X (own turn direction, own listing order).
 // The canonical picture goes through a random symmetry of the square (all four diagonal
 // arrangements of the two nodes, both slide axes) and the path is listed from A or from B (which of
 // the two coincident points comes first).
